@@ -44,6 +44,9 @@ func (e *Engine) verifyWith(fn *ssa.Function, ctr *Contract, opts *genOptions, s
 		}
 		if m["*"] {
 			for k := range g1.heapSort {
+				if strings.HasPrefix(k, "LOG|") || strings.HasPrefix(k, "G|") || strings.HasPrefix(k, "RG|") {
+					continue
+				}
 				m[k] = true
 			}
 		}
